@@ -133,7 +133,9 @@ func (s *PackScanner) GetByOffset(offset uint64) (plumbing.EncodedObject, error)
 
 // getObject retrieves object metadata from the pack at the given offset.
 func (s *PackScanner) getObject(h plumbing.Hash, offset uint64) (plumbing.EncodedObject, error) {
-	if int(offset+1) >= len(s.packMmap) {
+	// Compared as uint64: the offset comes from the idx and may be >= 2^63,
+	// which would turn int(offset+1) negative and slip past the check.
+	if offset >= uint64(len(s.packMmap)) || offset+1 >= uint64(len(s.packMmap)) {
 		return nil, ErrOffsetNotFound
 	}
 
